@@ -117,6 +117,8 @@ def decode_cell(s: str):
         v = float(s)
     except ValueError:
         return "unknown"
+    if v != v or abs(v) == float("inf"):
+        return "unknown"   # (inf / nan cells only occur in the dedicated extreme-fitness scenario, which counts rows)
     if v == int(v) and abs(v) < 10**9:
         return ["f", int(v)]
     return "T"  # a non-integral float: wall-clock time
@@ -438,9 +440,52 @@ def run_simplegp_search(h: Harness, tmp: str, n: int, k: int, only_best: bool, s
     h.count("simplegp-search")
 
 
+def check_extreme_first(h: Harness, tmp: str):
+    """the first registered individual is a new best whatever its fitness is -- also the worst value there is (inf when
+    minimising, -inf when maximising) or NaN: its row opens the best-only log.  For the infinities the later flags are
+    judged by `prop_flags` with the infinity mapped to an integer beyond all other values (the order is what matters)."""
+    inf = float("inf")
+    BIG = 10**9
+    for first in (inf, -inf, float("nan")):
+        for minimize in (True, False):
+            vals = [first, 5.0, 3.0, 3.0, 7.0, 1.0, first]
+            path = os.path.join(tmp, f"extreme{len(os.listdir(tmp))}.csv")
+            problem = SingleObjectiveProblem(lambda p: p.fit[0], minimize=minimize)
+            recorder = CSVSearchRecorder(path, problem, only_record_best_individuals=True)
+            spy = Spy()
+            tracker = SingleObjectiveProgressTracker(problem, recorders=[recorder, spy])
+            desc = f"best-only log under the real tracker, minimize={minimize}, fitness history {vals}"
+            try:
+                for j, v in enumerate(vals):
+                    tracker.evaluate([make_ind(j, 4 * j, [v])])
+                recorder.csv_file.flush()
+            except Exception as e:  # noqa: BLE001
+                h.fail("SingleObjectiveProgressTracker.evaluate", "raises", f"{desc}: raised {type(e).__name__}: {e}", [repr(first), minimize])
+                continue
+            finally:
+                recorder.csv_file.close()
+            flags = [f for (_, f) in spy.log]
+            snap, prob = read_snapshot(path)
+            h.count("extreme-first-fitness")
+            h.seen(f"extreme:{first!r}:{minimize}", nontrivial=True)
+            rows = len(snap) - 1 if snap else -1
+            if not flags or not flags[0]:
+                h.fail("SingleObjectiveProgressTracker.evaluate", "first-individual-not-announced-as-best",
+                       f"{desc}: the first registered individual was announced with is_best={flags[:1]}; the log has {rows} rows", [repr(first), minimize])
+                continue
+            if rows != sum(flags):
+                h.fail("CSVSearchRecorder.register", "column-not-faithful", f"{desc}: {sum(flags)} registrations were flagged best, the file has {rows} rows",
+                       [repr(first), minimize])
+            if first == first:   # not NaN: comparisons are meaningful
+                aggs = [(BIG if (v > 0) != minimize else -BIG) if abs(v) == inf else int(-v if minimize else v) for v in vals]
+                h.holds("SingleObjectiveProgressTracker.evaluate", "row-flagged-best-is-not-a-strict-improvement", ["prop_flags", aggs, flags],
+                        f"{desc}: is_best flags {flags}", [repr(first), minimize])
+
+
 def run(h: Harness):
     tmp = tempfile.mkdtemp(prefix="c20-", dir="/tmp")
     try:
+        check_extreme_first(h, tmp)
         n = 0
         for case in CORPUS:
             run_case(h, case, tmp, n)
